@@ -28,7 +28,7 @@ ASSUMPTIONS = ["no trade threshold (C12)", "epsilon snap of |position| < 1e-7 is
 REQUIRED = ["C03:same-request-other-account", "C03:chain-others-flat", "C03:target-weight-reached", "C03:target-contracts-reached", "C03:untargeted-closed",
             "C03:frictionless-weights", "C03:frictionless-nlv-unchanged", "C03:second-rebalance-trades-nothing",
             "C03:frictionless-contracts-reached", "C03:restored-account"]
-REQUIRED_CATS = ["requests-without-time", "same-request-two-accounts", "account-restored-in-another-interpreter", "chain-target-with-chain-addressed-series-through-a-roll"]
+REQUIRED_CATS = ["user-composite-target-through-a-switch", "requests-without-time", "same-request-two-accounts", "account-restored-in-another-interpreter", "chain-target-with-chain-addressed-series-through-a-roll"]
 REQUIRED_HITS = ["Broker.rebalance", "Rebalancing.make_trades"]
 TECHNIQUE = "runtime monitoring: post-conditions at the Broker.rebalance boundary against an independent ledger"
 LEVEL_TEXT = ("Exploration. The real Broker.rebalance is driven from thousands of generated prior holdings and targets; after each "
@@ -305,7 +305,92 @@ def chain_series_roll_scenario(ctx):
     ctx.sample = {"scenario": "chain series through a roll", "class": cls_.__name__, "w": [w1, w2]}
 
 
+class Switch(AbstractContract):
+    """A user-defined COMPOSITE contract (not a FutureChain): an alias of `before` until `when`, of `after` from then on
+    - a fund replaced by its successor share class, a generic 'on-the-run' instrument.  As the package documents for
+    composite contracts, static_hashing() hands out the contract it designates now; everything else follows that leg."""
+
+    def __init__(self, before, after, when):
+        self.before, self.after, self.when = before, after, when
+
+    def _leg(self):
+        return self.before if self.now < self.when else self.after
+
+    def static_hashing(self):
+        return self._leg()
+
+    underlyings = property(lambda s: [s.before, s.after])
+    symbol = property(lambda s: s._leg().symbol)
+    multiplier = property(lambda s: s._leg().multiplier)
+    margin_requirement = property(lambda s: s._leg().margin_requirement)
+    cash_requirement = property(lambda s: s._leg().cash_requirement)
+
+
+def user_composite_scenario(ctx):
+    """A user composite as rebalancing target (weights or numbers of contracts), both legs quoted throughout, no
+    frictions: the position is in the leg designated NOW; once the designation changes, the next rebalance closes the
+    old leg, establishes the target in the new one, and NLV only moves with prices."""
+    rng = ctx.rng
+    kind = rng.choice(["spot", "spot-mult", "margined"])
+    if kind == "spot":
+        old, new = ETF("OLD"), ETF("NEW")
+    elif kind == "spot-mult":
+        old, new = gen.SpotMult("OLDM", 10.0), gen.SpotMult("NEWM", 2.5)
+    else:
+        old, new = gen.UserFuture("OLDF", 5.0, 0.3), gen.UserFuture("NEWF", 5.0, 0.3)
+    t = [datetime(2021, 3, 1) + timedelta(days=k) for k in range(6)]
+    alias = Switch(old, new, when=t[3])
+    other = ETF("A")
+    fees = BrokerFees()
+    AbstractContract.now = t[0]
+    ex = gen.new_exchange(t[0], fees)
+    dep = rng.choice([1e4, 1e6])
+    b = Broker(ex, deposit=dep)
+    px = {old: rng.uniform(5, 50), new: rng.uniform(50, 500), other: 20.0}
+    asw = rng.random() < 0.7
+    nlv = dep
+    pos = {old: 0.0, new: 0.0, other: 0.0}
+    try:
+        for k in range(6):
+            AbstractContract.now = t[k]
+            for c in (old, new, other):
+                p1 = px[c] * rng.uniform(0.97, 1.03) if k else px[c]
+                nlv += pos[c] * c.multiplier * (p1 - px[c])
+                px[c] = p1
+                ex.process_EventNBBO(EventNBBO(t[k], c, p1, p1))
+            if k in (1, 2, 4, 5):
+                leg, idle = (old, new) if k < 3 else (new, old)
+                w = rng.choice([-1, 1]) * rng.uniform(0.2, 1.2)
+                wo = rng.choice([0.0, 0.2])
+                if asw:
+                    b.rebalance(Rebalancing([alias, other], [w, wo], time=t[k]))
+                    want = {leg: w * nlv / (leg.multiplier * px[leg]), other: wo * nlv / px[other]}
+                else:
+                    w, wo = float(round(w * 20)), float(round(wo * 50))
+                    b.rebalance(Rebalancing([alias, other], [w, wo], measure="nr-contracts", time=t[k]))
+                    want = {leg: w, other: wo}
+                h = b.holdings_quantity
+                ctx.check("C03:chain-others-flat", h.get(idle, 0.0) == 0.0, scenario="user-composite", step=k, kind=kind,
+                          held={c.symbol: q for c, q in h.items() if q and not isinstance(c, Cash)}, designated=leg.symbol)
+                for c in (leg, other):
+                    ctx.check("C03:target-weight-reached" if asw else "C03:target-contracts-reached",
+                              abs(h.get(c, 0.0) - want[c]) <= 1e-9 * max(1.0, abs(want[c])), scenario="user-composite", step=k,
+                              contract=c.symbol, got=h.get(c, 0.0), want=want[c], kind=kind)
+                ctx.check("C03:frictionless-nlv-unchanged", abs(b.net_liquidation_value() - nlv) <= 1e-9 * (dep + abs(nlv)),
+                          before=nlv, after=b.net_liquidation_value(), scenario="user-composite", step=k, kind=kind)
+                pos = {old: h.get(old, 0.0), new: h.get(new, 0.0), other: h.get(other, 0.0)}
+    except Exception as ex_:
+        ctx.check("C03:chain-others-flat", False, error=repr(ex_)[:300], scenario="user-composite", kind=kind)
+    finally:
+        AbstractContract.now = datetime.min
+    ctx.cat("user-composite-target-through-a-switch")
+    ctx.nontrivial = True
+    ctx.sample = {"scenario": "user composite contract through its switch date", "legs": kind, "as_weights": asw}
+
+
 def case(ctx, i, tier):
+    if i % 50 == 31:
+        return user_composite_scenario(ctx)
     if i % 750 == 13:
         return restored_scenario(ctx)
     if i % 150 == 77:
